@@ -1,6 +1,6 @@
 (* C05 -- Static typing discipline.  ONLY property theorems here.  The declarative rules are spec/Typing.v
    (docs/language.md, DESIGN.md Appendix E); the theorems say that every typing DECISION of the builder is the table's. *)
-From QV Require Import model.Base model.Lang model.Types model.Tir model.Ceval model.Builder spec.Typing proofs.TypingProofs proofs.BuilderInv proofs.BuilderSafe proofs.TypingSound gen.GenE0.
+From QV Require Import model.Base model.Lang model.Types model.Tir model.Ceval model.Builder spec.Typing proofs.TypingProofs proofs.BuilderInv proofs.BuilderSafe proofs.TypingSound proofs.IrTyped model.Passes gen.GenE0.
 
 (* The FULL statement -- a whole program is accepted iff it is well typed in the declarative system -- is a theorem for
    the direction "ill-typed is never accepted" on the expression fragment of literals, local variables, objects named by
@@ -118,3 +118,30 @@ Example C05_typed_example_calls :
   map (fun e => (frag E0 [] e, match walk_rvalue E0 [] e bstate0 with (V a, _) => Some (operand_tdesc a) | _ => None end)) [e4; e5; e6; e7] =
   [(true, Some (DConcrete T_INT)); (true, Some (DConcrete (TList T_STRING))); (true, Some (DConcrete T_VOID)); (true, None)].
 Proof. vm_compute. reflexivity. Qed.
+
+(* WHOLE PROGRAMS, on the generated code.  `code_typed E c` (proofs/IrTyped.v) says of every statement of every block of c: a unary / binary operator is
+   applied to operand types for which the table spec_unary / spec_binary has a row, and its result is stored in a temporary of the row's result type;
+   a copy, a property write, an element write and every call argument is assignable (spec_assignable: same type, a literal class below it, enum
+   alias, pointer upcast -- nothing else); a cast is one of the documented casts (spec_castable); a subscript has a list and an integer index; a list
+   expression has one common element type; Math.max / Math.min have one common operand type among bool, double, int, uint, QString; qsTr takes a string
+   literal; and every conditional branch tests a bool.  For EVERY class environment and EVERY binding or handler -- any nesting of statements and
+   expressions, no restriction to a fragment -- the code the model of tir::build / build_callback produces is typed in this sense: an ill-typed
+   operation never reaches the generated code.  (The proof carries the invariant through every visitor and walker of the translator, whatever
+   their outcome.) *)
+Theorem C05_generated_code_is_typed : forall E cb c, bu_code (build_callback E cb) = Some c -> code_typed E c.
+Proof. exact build_code_typed. Qed.
+Print Assumptions C05_generated_code_is_typed.
+
+(* the judgement is not vacuous: it refuses int + double, an int stored in a QString temporary, a branch on an int *)
+Example C05_code_typed_refuses :
+  ~ stmt_ok {| ce_classes := []; ce_enums := []; ce_objects := []; ce_this := None |} [T_INT; T_DOUBLE; T_INT] (TAssign 2 (RBinary BoAdd (OLocal 0 T_INT) (OLocal 1 T_DOUBLE))) /\
+  ~ stmt_ok {| ce_classes := []; ce_enums := []; ce_objects := []; ce_this := None |} [T_INT; T_STRING] (TAssign 1 (RCopy (OLocal 0 T_INT))) /\
+  ~ term_ok (Some (TmBrCond (OLocal 0 T_INT) 1 2)) /\
+  stmt_ok {| ce_classes := []; ce_enums := []; ce_objects := []; ce_this := None |} [T_INT; T_INT; T_INT] (TAssign 2 (RBinary BoAdd (OLocal 0 T_INT) (OLocal 1 T_INT))).
+Proof.
+  split; [|split; [|split]].
+  - intros [ty [_ H]]. cbn in H. discriminate H.
+  - intros [ty [H1 H2]]. cbn in H1. inversion H1; subst. cbn in H2. discriminate H2.
+  - cbn. discriminate.
+  - exists T_INT. split; reflexivity.
+Qed.
